@@ -2493,10 +2493,21 @@ class Parameters:
         # would need to handle the params() cache as well
         # (which is tricky but important for startup speed).
         cls = self_.cls
+        previous = cls.__dict__.get(param_name, Undefined)
         type.__setattr__(cls, param_name, param_obj)
-        ParameterizedMetaclass._initialize_parameter(cls, param_name, param_obj)
-        # delete cached params(), also of the subclasses that inherit it
-        _clear_params_cache(cls)
+        try:
+            ParameterizedMetaclass._initialize_parameter(cls, param_name, param_obj)
+        except BaseException:
+            # A Parameter that cannot be merged with the ones it overrides
+            # is not left installed
+            if previous is Undefined:
+                type.__delattr__(cls, param_name)
+            else:
+                type.__setattr__(cls, param_name, previous)
+            raise
+        finally:
+            # delete cached params(), also of the subclasses that inherit it
+            _clear_params_cache(cls)
 
     # PARAM3_DEPRECATION
     @_deprecated(extra_msg="Use instead `.param.add_parameter`", warning_cat=_ParamFutureWarning)
